@@ -193,9 +193,10 @@ def _corrupt(kind):
 
 
 CORRUPTIONS_QUICK = ["valid", "unindexed", "unsorted", "staleindex", "edge_child_n", "edge_parent_n", "mut_parent_n",
-                     "mut_node_n", "mut_site_n", "node_ind_n", "ind_parent_n", "mig_node_n", "empty"]
-CORRUPTIONS_ALL = CORRUPTIONS_QUICK + ["badindex", "edge_child_neg", "edge_parent_huge", "edge_coords", "mut_parent_neg",
-                                       "mut_site_neg", "node_pop_n", "node_ind_neg", "node_time_nan", "ind_parent_neg",
+                     "mut_node_n", "mut_site_n", "node_ind_n", "ind_parent_n", "mig_node_n", "empty",
+                     "mut_parent_neg", "ind_parent_neg"]
+CORRUPTIONS_ALL = CORRUPTIONS_QUICK + ["badindex", "edge_child_neg", "edge_parent_huge", "edge_coords",
+                                       "mut_site_neg", "node_pop_n", "node_ind_neg", "node_time_nan",
                                        "mig_pop_n", "site_pos_nan", "site_dup", "seqlen_small"]
 TABLE_NAMES = ["nodes", "edges", "sites", "mutations", "individuals", "populations", "migrations", "provenances"]
 
@@ -268,7 +269,7 @@ INDEX_LIKE = {"index", "id_", "key", "row_id", "edge_start", "site_start", "muta
 FLOAT_LIKE = {"position", "left", "right", "time", "t", "max_time", "min_time", "min_span", "span", "branch_length",
               "lambda_", "epsilon", "max_tree_height", "x", "max_distance", "Ne", "base", "proportion_value"}
 IDLIST_LIKE = {"samples", "nodes", "sites", "individuals", "site_ids", "tracked_samples", "focal", "within", "ancestors",
-               "node_mapping", "tracked_leaves", "order", "keep", "mutations", "edges", "populations", "migrations",
+               "node_mapping", "tracked_leaves", "order", "mutations", "edges", "populations", "migrations",
                "parents", "location", "quantiles", "positions"}
 SETS_LIKE = {"sample_sets", "between"}
 WINDOW_LIKE = {"windows", "time_windows", "breakpoints"}
@@ -628,6 +629,9 @@ def object_names(tier):
     names += [f"tc:{c}" for c in cors]
     for t in TABLE_NAMES:
         names.append(f"table:valid/{t}")
+    # tables whose self-referencing id column holds out-of-range values (row operations index by them)
+    names += ["table:mut_parent_neg/mutations", "table:mut_parent_n/mutations", "table:ind_parent_neg/individuals",
+              "table:ind_parent_n/individuals"]
     if tier == "thorough":
         names += ["tree:ts_one/first", "tree:ts_empty/null", "var:ts_noedges/decoded", "ts:ts_noedges"]
     return names
@@ -707,6 +711,8 @@ def run_shard(spec):
             if args is None:
                 continue
             obj, ctx = make_object(objname)
+            acc.enter({"_i": max(i - 1, 0), "_key": f"{cls}.{m}", "kind": "pair-first", "obj": objname, "method": m,
+                       "args": describe(args)})
             signal.alarm(CALL_TIMEOUT)
             st, r = do_call(obj, m, args, objname)
             signal.alarm(0)
@@ -755,6 +761,13 @@ def replay(case):
             if args is None or m != case["method"] or describe(args) != case["args"]:
                 continue
             obj, ctx = make_object(objname)
+            if case["kind"] == "pair-first":
+                signal.alarm(CALL_TIMEOUT)
+                st, r = do_call(obj, m, args, objname)
+                if st == "ok":
+                    consume(r)
+                signal.alarm(0)
+                return acc.failures
             for (pm, pargs) in probes(obj):
                 if pm == case["probe"]:
                     obj, ctx = make_object(objname)
